@@ -253,13 +253,6 @@ from copy import copy
 def _keygen(func, ignored, *args, **kwds):'''
 
 
-@V('keygen-signature-memo-correct-copy')
-def _(root):
-    # a correct memoisation of the signature: the memo's dict is never handed out
-    sub_all(root, ('_inspect.py',), "from copy import copy\ndef _keygen(func, ignored, *args, **kwds):", MEMO_HELPER % "defaults.copy() if defaults is not None else None")
-    sub_all(root, ('_inspect.py',), "explicitly_named,user_kwds = signature(func,markup=False,variadic=False, safe=safe)", "explicitly_named,user_kwds = _signature(func)")
-
-
 @V('wrapper-under-lock-with-logging')
 def _(root):
     # rr_cache (both modules): an RLock around the whole wrapper body and a debug log line
@@ -333,19 +326,6 @@ def _(root):
             raise RuntimeError('variant anchor not found: %r' % old[:50])
         body = body.replace(old, new, 1)
     open(p, 'w').write(s[:i] + body + s[j:])
-
-
-@V('argspec-memo-keyed-by-function')
-def _(root):
-    """inspection results memoised per function object (a bound method shares its function's entry); the defaults dict is rebuilt per call"""
-    sub_all(root, ('_inspect.py',), "import inspect\nfrom klepto.tools import IS_PYPY\n",
-            "import inspect\nfrom weakref import WeakKeyDictionary\nfrom klepto.tools import IS_PYPY\n\n_argspecs = WeakKeyDictionary()\n"
-            "def _argspec(func):\n    key = getattr(func, '__func__', func)\n    try:\n        return _argspecs[key]\n    except (KeyError, TypeError):\n        pass\n"
-            "    spec = inspect.getfullargspec(func)\n    try:\n        _argspecs[key] = spec\n    except TypeError:\n        pass\n    return spec\n\n")
-    sub_all(root, ('_inspect.py',), "        if FULL_ARGS: arg_spec = inspect.getfullargspec(func)\n        else: arg_spec = inspect.getargspec(func)\n",
-            "        arg_spec = _argspec(func)\n")
-    sub_all(root, ('_inspect.py',), "            arg_kwdefault = getattr(arg_spec, 'kwonlydefaults') or {}\n",
-            "            arg_kwdefault = dict(getattr(arg_spec, 'kwonlydefaults') or {})\n")
 
 
 @V('signature-self-drop-guarded-by-emptiness')
